@@ -88,6 +88,37 @@ class _SubstExpr(ast.NodeTransformer):
         return n
 
 
+def _pure_operand(e):
+    if isinstance(e, (ast.Constant, ast.Name)):
+        return True
+    if isinstance(e, ast.Attribute):
+        return _pure_operand(e.value)
+    if isinstance(e, ast.BinOp) and isinstance(e.op, (ast.Add, ast.Mod)):
+        return _pure_operand(e.left) and (_pure_operand(e.right) or (isinstance(e.right, ast.Tuple) and all(_pure_operand(x) for x in e.right.elts)))
+    if isinstance(e, ast.JoinedStr):
+        return all(isinstance(v, ast.Constant) or (isinstance(v, ast.FormattedValue) and _pure_operand(v.value) and v.format_spec is None) for v in e.values)
+    return False
+
+
+def _display_unrollable(st):
+    """for x in (e1, e2, e3): <body>  with call free element expressions whose names the body does not re-bind: the display is evaluated before
+    the loop, but evaluating each element just before its iteration gives the same values"""
+    if not (isinstance(st, ast.For) and isinstance(st.target, ast.Name) and not st.orelse):
+        return False
+    it = st.iter
+    if not (isinstance(it, (ast.Tuple, ast.List)) and 2 <= len(it.elts) <= 6 and all(_pure_operand(e) for e in it.elts)):
+        return False
+    if all(isinstance(e, ast.Constant) for e in it.elts):
+        return False          # literal string tables are handled by _loop_unrollable (reflective loops) or left alone
+    used = set(y.id for e in it.elts for y in ast.walk(e) if isinstance(y, ast.Name))
+    for n in ast.walk(ast.Module(body=st.body, type_ignores=[])):
+        if isinstance(n, (ast.Break, ast.Continue, ast.FunctionDef, ast.Lambda, ast.ClassDef)):
+            return False
+        if isinstance(n, ast.Name) and isinstance(n.ctx, (ast.Store, ast.Del)) and (n.id in used or n.id == st.target.id):
+            return False
+    return True
+
+
 def _loop_unrollable(st):
     if not (isinstance(st, ast.For) and isinstance(st.target, ast.Name) and not st.orelse):
         return False
@@ -534,6 +565,13 @@ class Normaliser(ast.NodeTransformer):
                     else:
                         res.append(c)
             return res
+        if _display_unrollable(st):
+            res = []
+            for e in st.iter.elts:
+                for b in st.body:
+                    c = self.visit(_SubstExpr({st.target.id: e}).visit(copy.deepcopy(b)))
+                    res.extend(c if isinstance(c, list) else [c])
+            return res
         if _loop_unrollable(st):
             out = []
             for e in st.iter.elts:
@@ -790,11 +828,212 @@ def _lift_closed_local_functions(tree):
     return tree
 
 
+class _RenameLocals(ast.NodeTransformer):
+    def __init__(self, mapping):
+        self.mapping = mapping
+
+    def visit_Name(self, n):
+        if n.id in self.mapping:
+            return ast.copy_location(ast.Name(id=self.mapping[n.id], ctx=n.ctx), n)
+        return n
+
+    def visit_ExceptHandler(self, h):
+        if h.name and h.name in self.mapping:
+            h.name = self.mapping[h.name]
+        return self.generic_visit(h)
+
+
+def _function_locals(fn):
+    out = [a.arg for a in fn.args.posonlyargs + fn.args.args + fn.args.kwonlyargs]
+    for y in ast.walk(fn):
+        if isinstance(y, ast.Name) and isinstance(y.ctx, (ast.Store, ast.Del)) and y.id not in out:
+            out.append(y.id)
+        elif isinstance(y, ast.ExceptHandler) and y.name and y.name not in out:
+            out.append(y.name)
+    return out
+
+
+def _yield_sites(fn):
+    """[(statement list that holds it, index, tail position?)] for the `yield E` statements of a simple generator, or None when the
+    function is not one (yield used as an expression, yield from, return, nested defs, try/finally, with)"""
+    sites = []
+    ok = [True]
+
+    def walk(stmts, tail, in_loop):
+        for i, st in enumerate(stmts):
+            last = tail and i == len(stmts) - 1
+            if isinstance(st, ast.Expr) and isinstance(st.value, ast.Yield):
+                if st.value.value is None:
+                    ok[0] = False
+                sites.append((stmts, i, last and in_loop))
+            elif isinstance(st, ast.If):
+                walk(st.body, last, in_loop)
+                walk(st.orelse, last, in_loop)
+            elif isinstance(st, (ast.For, ast.While)):
+                if st.orelse:
+                    ok[0] = False
+                walk(st.body, True, True)
+            elif isinstance(st, (ast.Return, ast.Try, ast.With, ast.FunctionDef, ast.AsyncFunctionDef, ast.ClassDef, ast.Global, ast.Nonlocal)):
+                ok[0] = False
+            else:
+                if any(isinstance(y, (ast.Yield, ast.YieldFrom, ast.Lambda)) for y in ast.walk(st)):
+                    ok[0] = False
+    body = [st for st in fn.body if not (isinstance(st, ast.Expr) and isinstance(st.value, ast.Constant))]
+    walk(body, False, False)
+    if not ok[0] or not sites or len(sites) > 3:
+        return None
+    return sites
+
+
+class _InlinePrivateGenerators(ast.NodeTransformer):
+    """`for T in self._gen(a, b): BODY` over a small private generator of the same class / module is the body of the generator with every
+    `yield E` replaced by `T = E; BODY` (parameters bound first, the generator's locals renamed).  Done only where that is the same
+    program: the generator is a plain one (no return, try, with, yield from), BODY has no break, and a `continue` in BODY is allowed only
+    when every yield is the last thing its loop iteration does."""
+    def __init__(self, tree):
+        self.mod_funcs = dict((st.name, st) for st in tree.body if isinstance(st, ast.FunctionDef))
+        self.cls_funcs = {}
+        for st in tree.body:
+            if isinstance(st, ast.ClassDef):
+                self.cls_funcs[st.name] = dict((m.name, m) for m in st.body if isinstance(m, ast.FunctionDef))
+        self.cls = None
+        self.fn = None
+        self.counter = 0
+        self.depth = 0
+
+    def visit_ClassDef(self, c):
+        saved = self.cls
+        self.cls = c.name
+        self.generic_visit(c)
+        self.cls = saved
+        return c
+
+    def visit_FunctionDef(self, fn):
+        saved = self.fn
+        self.fn = fn
+        self.generic_visit(fn)
+        self.fn = saved
+        return fn
+
+    def _callee(self, call):
+        """(generator def, receiver expression or None, bound like a method?)"""
+        f = call.func
+        if isinstance(f, ast.Name) and f.id.startswith("_") and not f.id.startswith("__") and f.id in self.mod_funcs:
+            return self.mod_funcs[f.id], None, False
+        if isinstance(f, ast.Attribute) and f.attr.startswith("_") and not f.attr.startswith("__") and isinstance(f.value, ast.Name) and self.cls:
+            meths = self.cls_funcs.get(self.cls, {})
+            g = meths.get(f.attr)
+            if g is None:
+                return None
+            static = any(isinstance(d, ast.Name) and d.id == "staticmethod" for d in g.decorator_list)
+            clsm = any(isinstance(d, ast.Name) and d.id == "classmethod" for d in g.decorator_list)
+            if clsm or any(not (isinstance(d, ast.Name) and d.id == "staticmethod") for d in g.decorator_list):
+                return None
+            caller_self = self.fn.args.args[0].arg if self.fn is not None and self.fn.args.args else None
+            if f.value.id == self.cls and static:
+                return g, None, False
+            if caller_self is not None and f.value.id == caller_self and not any(isinstance(d, ast.Name) and d.id in ("staticmethod", "classmethod")
+                                                                                  for d in self.fn.decorator_list):
+                return g, (None if static else f.value), not static
+        return None
+
+    def visit_For(self, st):
+        self.generic_visit(st)
+        it = st.iter
+        if st.orelse or not isinstance(it, ast.Call) or self.fn is None or self.depth > 2:
+            return st
+        if it.keywords and any(k.arg is None for k in it.keywords) or any(isinstance(a, ast.Starred) for a in it.args):
+            return st
+        got = self._callee(it)
+        if got is None:
+            return st
+        g, recv, bound = got
+        if g is self.fn or not any(isinstance(y, ast.Yield) for y in ast.walk(g)):
+            return st
+        if g.args.vararg or g.args.kwarg or g.args.kwonlyargs or g.args.posonlyargs:
+            return st
+        sites = _yield_sites(g)
+        if sites is None:
+            return st
+        body_nodes = [y for b in st.body for y in ast.walk(b)]
+        # break / continue that belong to this very loop (not to a loop nested in BODY)
+        def own_jumps(stmts, kind):
+            out = []
+            for b in stmts:
+                if isinstance(b, kind):
+                    out.append(b)
+                elif isinstance(b, (ast.For, ast.While, ast.FunctionDef, ast.ClassDef)):
+                    continue
+                else:
+                    for fld in ("body", "orelse", "finalbody", "handlers"):
+                        sub = getattr(b, fld, None)
+                        if isinstance(sub, list):
+                            out += own_jumps([h for h in sub if isinstance(h, ast.stmt)] +
+                                             [x for h in sub if isinstance(h, ast.ExceptHandler) for x in h.body], kind)
+            return out
+        if own_jumps(st.body, ast.Break):
+            return st
+        if own_jumps(st.body, ast.Continue) and not all(tail for _, _, tail in sites):
+            return st
+        if len(body_nodes) > 400:
+            return st
+        params = [a.arg for a in g.args.args]
+        args = list(it.args)
+        kw = dict((k.arg, k.value) for k in it.keywords)
+        binds = []
+        pos = params[1:] if bound else params
+        defaults = dict(zip(params[len(params) - len(g.args.defaults):], g.args.defaults))
+        if len(args) > len(pos):
+            return st
+        self.counter += 1
+        tag = "_%s%d__" % (g.name.strip("_"), self.counter)
+        locals_ = _function_locals(g)
+        mapping = dict((n, tag + n) for n in locals_)
+        if bound:
+            # the receiver is the caller's own self: keep the name
+            mapping[params[0]] = recv.id
+        for i, p in enumerate(pos):
+            if i < len(args):
+                v = args[i]
+            elif p in kw:
+                v = kw[p]
+            elif p in defaults:
+                v = copy.deepcopy(defaults[p])
+            else:
+                return st
+            binds.append(ast.copy_location(ast.Assign(targets=[ast.Name(id=mapping[p], ctx=ast.Store())], value=v, lineno=st.lineno), st))
+        if any(k not in pos for k in kw):
+            return st
+        gen_body = [copy.deepcopy(b) for b in g.body if not (isinstance(b, ast.Expr) and isinstance(b.value, ast.Constant))]
+
+        def replace(stmts):
+            out = []
+            for b in stmts:
+                if isinstance(b, ast.Expr) and isinstance(b.value, ast.Yield):
+                    tgt = copy.deepcopy(st.target)
+                    out.append(ast.copy_location(ast.Assign(targets=[tgt], value=b.value.value, lineno=st.lineno), st))
+                    out.extend(copy.deepcopy(x) for x in st.body)
+                    continue
+                for fld in ("body", "orelse"):
+                    sub = getattr(b, fld, None)
+                    if isinstance(sub, list) and isinstance(b, (ast.If, ast.For, ast.While)):
+                        setattr(b, fld, replace(sub))
+                out.append(b)
+            return out
+        renamed = [_RenameLocals(mapping).visit(b) for b in gen_body]
+        new_body = replace(renamed)
+        res = binds + new_body
+        for r in res:
+            ast.fix_missing_locations(r)
+        return res
+
+
 def normalise(tree):
     tree = _lift_closed_local_functions(tree)
     inl = _InlinePrivateConstants(tree)
     if inl.consts:
         tree = inl.visit(tree)
+    tree = _InlinePrivateGenerators(tree).visit(tree)
     tree = Normaliser(tree).visit(tree)
     ast.fix_missing_locations(tree)
     return tree
